@@ -1,0 +1,34 @@
+//go:build verif
+
+package trivia
+
+import "github.com/onflow/cadence/ast"
+
+// Exports of the attachment internals for the verification harness
+// (build tag `verif` only; not part of the normal build).
+
+// VerifAttachLevel is Attach without the hoist post-passes: attachLevel on the
+// program's declarations, left-overs become footer comments.
+func VerifAttachLevel(program *ast.Program, groups []*CommentGroup, source []byte) *CommentMap {
+	cm := NewCommentMap()
+	cm.Source = source
+	if len(groups) == 0 {
+		return cm
+	}
+	decls := program.Declarations()
+	elements := make([]ast.Element, len(decls))
+	for i, d := range decls {
+		elements[i] = d
+	}
+	remaining := attachLevel(cm, elements, groups, true, source)
+	cm.FooterComments = append(cm.FooterComments, remaining...)
+	return cm
+}
+
+func VerifChildren(node ast.Element) []ast.Element {
+	return getChildren(node)
+}
+
+func VerifTrueEndPosition(reportedEnd ast.Position, source []byte) ast.Position {
+	return trueEndPosition(reportedEnd, source)
+}
